@@ -10,12 +10,13 @@
   explored).  Square roots do not appear: a fingerprint carries its reported standard deviations as data, and
   the sample standard deviations `statistics.stdev(values)` used by `Thymus.train` are an explicit environment
   argument `Sds` (the theorems hold for every value of it).  Rule conditions are arbitrary functions that
-  answer yes / no or raise.  Time only matters for the order of `last_accessed` stamps in the memory and is a
-  logical clock.
+  answer yes / no or raise.  Time is a logical clock in microseconds: one tick per stamp, `expire` adds two hours
+  (the update tolerance is one hour, `prune_old` takes whole hours), which fixes the order of stamps and the outcome
+  of every age comparison.
 
   Not modelled: the regular expressions, json parsing and md5 inside `MHCDisplay.generate_peptide` (an observation
   arrives with its length, word ids and structure id; in `Sys` the display is a slot holding the current fingerprint,
-  which `Display.generate` fills), NaN, `MHCPeptide.similarity`, `ToleranceRecord.recent_update`, memory import/export/prune_old,
+  which `Display.generate` fills), NaN, `MHCPeptide.similarity`,
   `health`, wall-clock fields, message texts (a violation is its kind).
 -/
 namespace Operon.Immune
@@ -167,9 +168,11 @@ def TCell.resetFA (t : TCell) : TCell :=
 structure Record where
   clean : Nat
   total : Nat
+  /-- `recent_update`: `mark_updated` was called and the tolerance hour has not elapsed since -/
+  recent : Bool
 
 def Record.recordInspection (r : Record) (clean : Bool) : Record :=
-  ⟨if clean then r.clean + 1 else 0, r.total + 1⟩
+  ⟨if clean then r.clean + 1 else 0, r.total + 1, r.recent⟩
 
 inductive CondOut where
   | yes | no | raise
@@ -359,6 +362,8 @@ structure Sig where
   level : Level
   action : Action
   accessed : Nat
+  /-- `created_at` in microseconds of the logical clock (can lie before the start for imported signatures) -/
+  created : Int
 
 structure Memory where
   cap : Int
@@ -389,7 +394,7 @@ def recallGo (agent vocab struct now : Nat) : List Sig → List Sig × Option Si
   | [] => ([], none)
   | s :: r =>
     if s.hits agent vocab struct then
-      (⟨s.agent, s.vocab, s.struct, s.level, s.action, now⟩ :: r, some s)
+      (⟨s.agent, s.vocab, s.struct, s.level, s.action, now, s.created⟩ :: r, some s)
     else ((s :: (recallGo agent vocab struct now r).1), (recallGo agent vocab struct now r).2)
 
 /-! ### The pipeline -/
@@ -422,7 +427,7 @@ def Sys.init (minTrain : Int) (tol varThr : Rat) (treg : Treg) (cap : Int) : Sys
 
 /-- `register_agent`: a new (empty) display and a new tolerance record; an existing T cell stays -/
 def Sys.register (s : Sys) (a : Nat) : Sys :=
-  s.setAgent a ⟨true, none, (s.agents a).tcell, some ⟨0, 0⟩⟩
+  s.setAgent a ⟨true, none, (s.agents a).tcell, some ⟨0, 0, false⟩⟩
 
 /-- the display slot: what the agent currently shows -/
 def Sys.showPeptide (s : Sys) (a : Nat) (p : Option Peptide) : Sys :=
@@ -466,7 +471,7 @@ def Sys.afterTCell (s : Sys) (a : Nat) (ag : Agent) (p : Peptide) (mem : Memory)
   | none =>
     if r.level = .confirmed ∨ r.level = .critical then
       (⟨s.minTrain, s.tol, s.varThr, s.treg,
-        mem.store ⟨a, p.vocab, p.struct, r.level, r.action, s.clock + 2⟩, s.clock + 2,
+        mem.store ⟨a, p.vocab, p.struct, r.level, r.action, s.clock + 2, ((s.clock + 2 : Nat) : Int)⟩, s.clock + 2,
         fun b => if b = a then ⟨ag.registered, ag.display, some t', none⟩ else s.agents b⟩, .resp r)
     else
       (⟨s.minTrain, s.tol, s.varThr, s.treg, mem, s.clock + 1,
@@ -479,7 +484,8 @@ def Sys.afterTCell (s : Sys) (a : Nat) (ag : Agent) (p : Peptide) (mem : Memory)
     | .ok supp _ modified =>
       if r.level = .confirmed ∨ r.level = .critical then
         (⟨s.minTrain, s.tol, s.varThr, s.treg,
-          mem.store ⟨a, p.vocab, p.struct, r.level, if supp then modified else r.action, s.clock + 2⟩,
+          mem.store ⟨a, p.vocab, p.struct, r.level, if supp then modified else r.action, s.clock + 2,
+            ((s.clock + 2 : Nat) : Int)⟩,
           s.clock + 2,
           fun b => if b = a then
             ⟨ag.registered, ag.display, some t', some (rec.recordInspection (decide (r.level = .noThreat)))⟩
@@ -534,6 +540,41 @@ def Sys.resetT (s : Sys) (a : Nat) (falseAlarm : Bool) : Sys :=
 def Sys.dropRecord (s : Sys) (a : Nat) : Sys :=
   s.setAgent a ⟨(s.agents a).registered, (s.agents a).display, (s.agents a).tcell, none⟩
 
+/-- `mark_agent_updated` -/
+def Sys.markUpdated (s : Sys) (a : Nat) : Sys :=
+  match (s.agents a).record with
+  | none => s
+  | some r => s.setAgent a ⟨(s.agents a).registered, (s.agents a).display, (s.agents a).tcell,
+      some ⟨r.clean, r.total, true⟩⟩
+
+/-- two hours pass (in microseconds of the logical clock): every update tolerance (one hour) runs out -/
+def twoHours : Nat := 7200000000
+
+def Sys.expire (s : Sys) : Sys :=
+  ⟨s.minTrain, s.tol, s.varThr, s.treg, s.mem, s.clock + twoHours,
+    fun b => ⟨(s.agents b).registered, (s.agents b).display, (s.agents b).tcell,
+      match (s.agents b).record with
+      | none => none
+      | some r => some ⟨r.clean, r.total, false⟩⟩⟩
+
+/-- `memory.prune_old(timedelta(hours = h))`: keeps `created_at > now - max_age` -/
+def Sys.pruneOld (s : Sys) (hours : Nat) : Sys :=
+  ⟨s.minTrain, s.tol, s.varThr, s.treg,
+    ⟨s.mem.cap, s.mem.sigs.filter fun x => decide (((s.clock + 1 : Nat) : Int) < x.created + (hours * 3600000000 : Nat))⟩,
+    s.clock + 1, s.agents⟩
+
+/-- `import_signatures`: one by one, while there is room (no pruning); `last_accessed` is the time of the import -/
+def importGo (cap : Int) (now : Nat) : List Sig → List Sig → List Sig
+  | acc, [] => acc
+  | acc, x :: rest =>
+    if (acc.length : Int) < cap then
+      importGo cap now (acc ++ [⟨x.agent, x.vocab, x.struct, x.level, x.action, now, x.created⟩]) rest
+    else importGo cap now acc rest
+
+def Sys.importSigs (s : Sys) (data : List Sig) : Sys :=
+  ⟨s.minTrain, s.tol, s.varThr, s.treg, ⟨s.mem.cap, importGo s.mem.cap (s.clock + 1) s.mem.sigs data⟩,
+    s.clock + 1, s.agents⟩
+
 /-! ### Histories -/
 
 inductive Op where
@@ -545,12 +586,18 @@ inductive Op where
   | reset (a : Nat)
   | resetFA (a : Nat)
   | dropRecord (a : Nat)
+  | markUpdated (a : Nat)
+  | expire
+  | pruneOld (hours : Nat)
+  /-- `import_signatures(data)`; `export_signatures()` is a pure read of the memory -/
+  | importSigs (data : List Sig)
 
 /-- what an operation shows to the outside -/
 inductive Obs where
   | done
   | trained (r : TrainOut)
   | inspected (a : Nat) (shown : Option Peptide) (r : InspectOut)
+  | imported (data : List Sig)
 
 def Sys.step (s : Sys) : Op → Sys × Obs
   | .register a => (s.register a, .done)
@@ -561,6 +608,10 @@ def Sys.step (s : Sys) : Op → Sys × Obs
   | .reset a => (s.resetT a false, .done)
   | .resetFA a => (s.resetT a true, .done)
   | .dropRecord a => (s.dropRecord a, .done)
+  | .markUpdated a => (s.markUpdated a, .done)
+  | .expire => (s.expire, .done)
+  | .pruneOld h => (s.pruneOld h, .done)
+  | .importSigs data => (s.importSigs data, .imported data)
 
 /-- run a history; the observations come out in order -/
 def Sys.run (s : Sys) : List Op → Sys × List Obs
